@@ -147,6 +147,9 @@ def c01_programs(seed, tier):
     # (3b) integers of any declared range: widths around byte/word boundaries and the widest ones
     for w in ([1, 7, 8, 9, 31, 32, 33, 57, 58, 59, 60, 61, 62, 63, 64] if tier == "quick" else range(0, 65)):
         out.append(prog(f"width{w}", [new(), blob(r.choice([0, 3, 944, 960])), pc(width_proto(w, neg=(w % 2 == 1)), 23, seed=seed * 31 + w), FIN]))
+    # (3c) half-defaulted 64-bit ranges
+    for i, (mn, mx) in enumerate(((0, I64MAX), (I64MIN, 5), (I64MIN + 1, I64MAX), (-1, I64MAX), (I64MIN, I64MAX - 1))):
+        out.append(prog(f"halfdefault{i}", [new(), pc(xyz("single") + [rec("intensity", "int", mn, mx)], 17, seed=seed + i), FIN]))
     # (4) empty file, empty point cloud, only blobs
     out.append(prog("empty", [new(), FIN]))
     out.append(prog("emptypc", [new(), pc(protos[0], 0), FIN]))
